@@ -304,3 +304,31 @@ TASKS.append(FunctionTask(Contract(qual=_QT + "__eq__", params=["self", "other"]
                           module_env=dict(ENV, np=ModV("np", dict(_NP.attrs, allclose=FuncV(_m_allclose_any, "np.allclose"), all=FuncV(_m_all, "np.all")))),
                           registry={"HvsrTraditional.is_similar": FuncV(_m_sim_az, "HvsrTraditional.is_similar")}, label=_QT + "__eq__",
                           clauses=["equal = similar, same number of curves, curves close, accept masks equal"]))
+
+
+# ---- Settings.__eq__: equal iff the two attribute dictionaries are equal (each object's own attr_dict; its content: contracts/C15.py) ------------------------------------
+def _attr_dict_of(ex, st, env):
+    o = env["self"]
+    return sym_obj(ex, st, "dict", {"of": _ident(o)}, owner="fresh")
+
+
+_ATTR = Contract(qual="hvsrpy.settings.Settings.attr_dict", params=["self"], ensures=[], modifies=[], is_property=True, make_result=_attr_dict_of)
+
+
+def _m_dict_eq(ex, st, args, kw, node):
+    a, b = (st.heap[x.oid].fields["of"] for x in args)
+    return EQUAL(a, b)
+
+
+def _set_inputs(ex, st):
+    st.env["self"] = sym_obj(ex, st, "Settings", {}, owner="param:self")
+    st.env["other"] = sym_obj(ex, st, "Settings", {}, owner="param:other")
+    return []
+
+
+TASKS.append(FunctionTask(Contract(qual="hvsrpy.settings.Settings.__eq__", params=["self", "other"], ghost=_GH, make_inputs=_set_inputs,
+                                   ensures=["result == EQUAL(self, other)"], modifies=[],
+                                   notes="two settings objects are equal iff the attribute dictionary of the one equals that of the other (EQUAL here: dictionary equality of the "
+                                         "two objects' attr_dict)"),
+                          module_env=ENV, registry={"Settings.attr_dict": _ATTR, "dict.__eq__": FuncV(_m_dict_eq, "dict.__eq__")}, label="hvsrpy.settings.Settings.__eq__",
+                          clauses=["settings are equal iff their attribute dictionaries are"]))
